@@ -130,4 +130,15 @@ theorem patch2receiver_hidden_zero (pt : (Nat → ℝ) → (Nat → Nat → ℝ)
     patch2receiverEnergyUniversal pt s0 rec P s1 s2 pp s3 vis i = 0 := by
   rw [patch2receiverEnergy_eq pt P rec pp vis s0 s1 s2 s3 i hi]; simp [hv]
 
+/-- **placement** (C17): moving source and room by one vector leaves the distances the translated source-leg kernel returns
+    unchanged, patch by patch (whatever the point factor and the visibility vector) -/
+theorem source2patchDistance_translation (pt pt' : (Nat → ℝ) → (Nat → Nat → ℝ) → ℝ) (P B : Nat) (src : Nat → ℝ)
+    (pc : Nat → Nat → ℝ) (pp pp' : Nat → Nat → Nat → ℝ) (vis : Nat → Bool) (att : Option (Nat → ℝ)) (t : Nat → ℝ)
+    (s0 s1 s2 s3 s4 : Nat) (j : Nat) (hj : j < P) :
+    (source2patchEnergyUniversal pt' 3 (fun q => src q + t q) P 3 (fun k q => pc k q + t q) s0 s1 s2 pp' s3 vis s4 att B).2 j =
+      (source2patchEnergyUniversal pt 3 src P 3 pc s0 s1 s2 pp s3 vis s4 att B).2 j := by
+  rw [source2patchDistance_eq pt' P B _ _ pp' vis att s0 s1 s2 s3 s4 j hj,
+    source2patchDistance_eq pt P B src pc pp vis att s0 s1 s2 s3 s4 j hj]
+  simp [Vec3.sub]
+
 end Sparrow
